@@ -24,6 +24,13 @@ class TakeV:
         self.inner, self.limit = inner, limit       # limit: Sc u64
 
 
+class ChainV:
+    """std::io::Chain: the first reader until it reports end of input, then the second"""
+
+    def __init__(self, first, second):
+        self.first, self.second, self.done_first = first, second, False
+
+
 class SinkV:
     """writer that accepts `limit` bytes and then fails every write"""
 
@@ -115,6 +122,13 @@ def register(M):
             if res.variant == 'Ok':
                 r.limit = ex.binop('Sub', r.limit, Sc(z3.ZeroExt(0, res.f[0].t), 'u64') if res.f[0].ty == 'u64' else ex.cast(res.f[0], 'u64', 'IntToInt'))
             return res
+        if isinstance(r, ChainV):
+            if not r.done_first:
+                res = ex.force(do_read(ex, r.first, sl))
+                if not (res.variant == 'Ok' and res.f[0].concrete() == 0 and sl.n > 0):
+                    return res
+                r.done_first = True
+            return do_read(ex, r.second, sl)
         if isinstance(r, SliceReader):
             n = min(sl.n, r.remaining())
             for i, x in enumerate(r.take_bytes(n)):
@@ -178,6 +192,14 @@ def register(M):
     def _take(ex, args, info):
         return TakeV(as_reader(args[0]) if not isinstance(args[0], (CursorV, TakeV, SliceReader)) else args[0], args[1])
 
+    @M.trait('Read', 'chain')
+    def _chain(ex, args, info):
+        def rd(v):
+            if isinstance(v, SliceRef):
+                return SliceReader(Ptr(Cell(v)))
+            return v if isinstance(v, (CursorV, TakeV, SliceReader, ChainV)) else as_reader(v)
+        return ChainV(rd(args[0]), rd(args[1]))
+
     @M.trait('Read', 'by_ref')
     def _by_ref(ex, args, info):
         return args[0]
@@ -192,9 +214,27 @@ def register(M):
         while isinstance(cur, TakeV):
             lim = cur.limit if lim is None else lim
             cur = cur.inner
-        if not isinstance(cur, (CursorV, SliceReader)):
-            raise Unsupported('read_to_end on %s' % type(cur).__name__)
-        rem = cur.remaining()
+        def remaining(x):
+            if isinstance(x, ChainV):
+                return (0 if x.done_first else remaining(x.first)) + remaining(x.second)
+            if isinstance(x, (CursorV, SliceReader)):
+                return x.remaining()
+            raise Unsupported('read_to_end on %s' % type(x).__name__)
+
+        def take(x, k):
+            if isinstance(x, ChainV):
+                a = 0 if x.done_first else min(k, remaining(x.first))
+                out = take(x.first, a) if a else []
+                if k > a:
+                    x.done_first = True
+                    out = out + take(x.second, k - a)
+                return out
+            if isinstance(x, SliceReader):
+                return x.take_bytes(k)
+            out = x.data[x.pos:x.pos + k]
+            x.pos += k
+            return out
+        rem = remaining(cur)
         if lim is None:
             n = rem
         else:
@@ -204,11 +244,7 @@ def register(M):
                 w = lim.t.size()
                 conds = [lim.t == z3.BitVecVal(k, w) for k in range(rem)] + [z3.UGE(lim.t, z3.BitVecVal(rem, w))]
                 n = ex.choose(conds, 'Take limit vs. remaining input')
-        if isinstance(cur, SliceReader):
-            chunk = cur.take_bytes(n)
-        else:
-            chunk = cur.data[cur.pos:cur.pos + n]
-            cur.pos += n
+        chunk = take(cur, n)
         if isinstance(r, TakeV):
             r.limit = ex.binop('Sub', r.limit, mk_int(n, r.limit.ty))
         if info.method == 'read_to_string':
